@@ -2,7 +2,7 @@
 import json
 
 from harness import docs as D
-from harness.tlc import from_atoms, tla_seq as S
+from harness.tlc import from_atoms, tla_seq as S, tla_str as tlc_str
 from harness.props import c01, c10
 
 INV = ['C01_RoundTrip', 'C02_Structure', 'C03_Search', 'OutcomeIsDiagnostic']
@@ -15,6 +15,11 @@ ZERO = ['cup', 'cap', 'in', 'notin', 'infty']
 KINDS = ['$', '$$', '\\(', '\\[']
 
 
+DEF_MATH = ('Cmd(%s, << Grp("{", << Cmd(%s, <<>>) >>, <<>>), Grp("{", << Math("$", << T(%s) >>) >>, <<>>) >>)' % (S('newcommand'), S('nm'), S('x')))
+DEF_MATH2 = ('Cmd(%s, << Grp("{", << Cmd(%s, <<>>) >>, <<>>), Grp("{", << T(%s), Math(%s, << T(%s) >>) >>, <<>>) >>)'
+             % (S('renewcommand'), S('nm'), S('t'), tlc_str('\\['), S('y')))
+
+
 def check_doc(args):
     return c10.check_doc(args, 'C12')
 
@@ -25,12 +30,12 @@ def cmd0(name):
 
 def scopes(chk):
     quick = chk.tier == 'quick'
-    common = {'ComPool': [], 'Seps': [''], 'VerbNames': [], 'ListNames': ['itemize'], 'Labels': [''], 'ExtraQueries': ['a', 'cup']}
+    common = {'ComPool': [], 'Seps': [''], 'VerbNames': [], 'ListNames': ['itemize'], 'Labels': [''], 'ExtraQueries': ['a', 'cup', 'math', 'displaymath', '$', '$$']}
     sc = []
     p = dict(common)
     p.update({'Budget': 3 if quick else 5, 'TextPool': ['t', '\\$', ' ', 't\\\\'], 'MathTextPool': ['x', '(', ')[(', '[0,1)', ']', 'a\\$b', '\\$', 'x\\\\'],
               'CmdNames': ['a'], 'EnvNames': ['e'], 'MathKinds': KINDS, 'MEnvNames': ['equation', 'align*'],
-              'Leaves': [cmd0('cup'), cmd0('in')], 'MaxSib': 2, 'MaxArgs': 1, 'MaxDepth': 3})
+              'Leaves': [cmd0('cup'), cmd0('in'), DEF_MATH, DEF_MATH2], 'MaxSib': 2, 'MaxArgs': 1, 'MaxDepth': 3})
     sc.append(('bodies', p))
     p = dict(common)
     p.update({'Budget': 3, 'TextPool': ['t'], 'MathTextPool': ['x', '['], 'CmdNames': [], 'EnvNames': [], 'ListNames': [], 'MathKinds': [],
